@@ -35,7 +35,9 @@ SCHEMA = '''<xsd:import namespace="http://schemas.xmlsoap.org/soap/encoding/"/>
 <xsd:complexType name="ArrayOfString"><xsd:complexContent><xsd:restriction base="soapenc:Array">
 <xsd:attribute ref="soapenc:arrayType" wsdl:arrayType="xsd:string[]"/></xsd:restriction></xsd:complexContent></xsd:complexType>
 <xsd:complexType name="ArrayOfPerson"><xsd:complexContent><xsd:restriction base="soapenc:Array">
-<xsd:attribute ref="soapenc:arrayType" wsdl:arrayType="x:Person[]"/></xsd:restriction></xsd:complexContent></xsd:complexType>'''
+<xsd:attribute ref="soapenc:arrayType" wsdl:arrayType="x:Person[]"/></xsd:restriction></xsd:complexContent></xsd:complexType>
+<xsd:complexType name="Matrix"><xsd:complexContent><xsd:restriction base="soapenc:Array">
+<xsd:attribute ref="soapenc:arrayType" wsdl:arrayType="xsd:int[][]"/></xsd:restriction></xsd:complexContent></xsd:complexType>'''
 
 
 def make_wsdl(ret_type):
@@ -81,6 +83,9 @@ class Writer:
         self.outlined = 0
         self.xsi = rng.choice(["xsi", "xsi", "i"])           # the schema-instance namespace under another prefix
         self.local = rng.random() < 0.3                       # declare prefixes on the element that uses them
+        # SOAP 1.1 section 5: the name of an independent element is not significant - the customary "multiRef", the
+        # name of the accessor that refers to it, or the type's name
+        self.mrname = rng.choice(["multiRef", "multiRef", "accessor", "other"])
 
     def new_id(self):
         self.n += 1
@@ -120,7 +125,8 @@ class Writer:
                 root = ' soapenc:root="0"' if self.marked else ""
                 if root and self.local and v[0] != "array":
                     root = ' xmlns:soapenc="%s"%s' % (ENC, root)
-                self.multirefs.append('<multiRef id="%s"%s%s>%s</multiRef>' % (rid, root, self.type_attrs(v), self.content(v)))
+                tag = {"multiRef": "multiRef", "accessor": name, "other": "val%d" % self.n}[self.mrname]
+                self.multirefs.append('<%s id="%s"%s%s>%s</%s>' % (tag, rid, root, self.type_attrs(v), self.content(v), tag))
             self.outlined += 1
             return '<%s href="#%s"/>' % (name, rid)
         ta = self.type_attrs(v)
@@ -242,6 +248,7 @@ def run(ctx):
     for meta, real, ans in zip(metas, reals, ctx.driver.ask(reqs)):
         if ans is not None:
             ctx.compare("MultiRef.process", meta, real, strip_ids(ans))
+    jagged_and_dangling(ctx)
     # a reference that dangles in this reply stays dangling, whatever earlier replies on the same client defined
     head = ('<e:Envelope xmlns:e="%s" xmlns:xsi="%s" xmlns:xsd="%s" xmlns:soapenc="%s" xmlns:x="%s"><e:Body>'
             '<m:fResponse xmlns:m="%s"><return xsi:type="x:Person"><name xsi:type="xsd:string">N</name>'
@@ -288,6 +295,60 @@ def kf_unmarked_before(f, k):
 
 
 CLASSIFIERS = {"c18_unmarked_multiref_first": kf_unmarked_before}
+
+
+def leaves(x):
+    """The leaf values of a decoded result, in order."""
+    import suds.sudsobject
+    if isinstance(x, suds.sudsobject.Object):
+        out = []
+        for _k, v in suds.sudsobject.items(x):
+            out.extend(leaves(v))
+        return out
+    if isinstance(x, (list, tuple)):
+        out = []
+        for v in x:
+            out.extend(leaves(v))
+        return out
+    return [x]
+
+
+def jagged_and_dangling(ctx):
+    """(a) an array of arrays (arrayType with two bracket groups; the rows carry only their own arrayType): inline and
+    with rows moved out of line it decodes to the same value, whose leaves are the integers written; (b) an href that
+    matches no id stays unresolved without disturbing the references after it."""
+    env = ('<e:Envelope xmlns:e="%s" xmlns:xsi="%s" xmlns:xsd="%s" xmlns:soapenc="%s" xmlns:x="%s"><e:Body>'
+           '<m:fResponse xmlns:m="%s">%%s</m:fResponse>%%s</e:Body></e:Envelope>' % (xmlread.ENV11, XSI, XSD, ENC, TNS, TNS))
+    row = '<item soapenc:arrayType="xsd:int[2]">%s</item>'
+    rows = [row % "<i>1</i><i>2</i>", row % "<i>3</i><i>4</i>"]
+    inline = env % ('<return xsi:type="x:Matrix" soapenc:arrayType="xsd:int[][2]">%s</return>' % "".join(rows), "")
+    outl = env % ('<return xsi:type="x:Matrix" soapenc:arrayType="xsd:int[][2]"><item href="#r1"/><item href="#r2"/>'
+                  '</return>', '<multiRef id="r1" soapenc:root="0" soapenc:arrayType="xsd:int[2]"><i>1</i><i>2</i></multiRef>'
+                  '<multiRef id="r2" soapenc:root="0" soapenc:arrayType="xsd:int[2]"><i>3</i><i>4</i></multiRef>')
+    c = wsdlkit.client(make_wsdl("x:Matrix"))
+    got = []
+    for name, doc in (("inline", inline), ("out-of-line", outl)):
+        ctx.case(("jagged", name), True)
+        try:
+            got.append(leaves(c.service.f("x", __inject={"reply": doc.encode()})))
+        except Exception as e:
+            got.append("%s: %s" % (type(e).__name__, e))
+    if got != [[1, 2, 3, 4], [1, 2, 3, 4]]:
+        ctx.fail("an array of arrays does not decode to its integers (inline / rows out of line)", {"stream": "jagged"},
+                 got, [[1, 2, 3, 4], [1, 2, 3, 4]])
+    c2 = wsdlkit.client(make_wsdl("x:Person"))
+    person = ('<return xsi:type="x:Person"><name href="#nowhere"/><age href="#a"/><home href="#h"/></return>')
+    refs = ('<multiRef id="a" soapenc:root="0" xsi:type="xsd:int">41</multiRef><multiRef id="h" soapenc:root="0" '
+            'xsi:type="x:Addr"><city href="#alsonowhere"/><zip href="#z"/></multiRef><multiRef id="z" soapenc:root="0" '
+            'xsi:type="xsd:int">7</multiRef>')
+    ctx.case(("dangling-then-valid",), True)
+    try:
+        r = c2.service.f("x", __inject={"reply": (env % (person, refs)).encode()})
+        got = [getattr(r, "age", None), getattr(getattr(r, "home", None), "zip", None)]
+    except Exception as e:
+        got = "%s: %s" % (type(e).__name__, e)
+    if got != [41, 7]:
+        ctx.fail("a dangling href disturbed the references after it", {"stream": "dangling-then-valid"}, got, [41, 7])
 
 
 def widen(ctx):
